@@ -153,6 +153,12 @@ def cases(shard, nshards, seed, tier):
         ns = rng.randint(1, 7 if shape is None else 12)
         n, pairs = gen2d.random_stems(rng, ns, maxlen=rng.choice([1, 2, 6]), spacer=(0, rng.choice([0, 1, 4])), shape=shape)
         yield {"family": "random-stems", "n": n, "pairs": pairs, "seq": gen2d.seq_for(n, rng)}
+    # every member of the list for a group of nine crossing stems (9! stem orders inside the library, ~7 s)
+    for t, shape in enumerate(["chain", "chain"] if tier == "quick" else ["chain", "chain", None, None]):
+        rng = random.Random(f"{seed}:C01:nine:{t}")
+        n9, p9 = gen2d.random_stems(rng, 9, maxlen=rng.choice([1, 2]), spacer=(0, 1), shape=shape)
+        if mine():
+            yield {"family": "nine-stem-group", "n": n9, "pairs": p9}
     nbig = 30 if tier == "quick" else 600
     for i in range(nbig):
         if not mine():
@@ -195,9 +201,29 @@ def cases(shard, nshards, seed, tier):
             continue
         rng = random.Random(f"{seed}:C01:ms:{i}")
         strands = []
-        for s in range(rng.randint(1, 5)):
-            n = rng.randint(1, 30)
-            strands.append([rng.random() < 0.5 and f">strand_{s}" or None, gen2d.seq_for(n, rng), gen2d.random_dotbracket(rng, n, rng.choice([1, 2, 4]))])
+        if i % 2:
+            # one balanced notation cut into strands: pairs between strands, strands that begin with a closing
+            # bracket (also with '>', the closing bracket of the fourth level, which is the header character too)
+            k = rng.randint(2, 5)
+            n = rng.randint(k, 60)
+            whole = gen2d.random_dotbracket(rng, n, rng.choice([2, 4, 4, 6]))
+            if i % 4 == 1 and n >= 6:
+                # a duplex on the fourth level: <<<.. / >>>..
+                h = n // 2
+                m = min(3, h - 1)
+                whole = "<" * m + "." * (h - m) + ">" * m + "." * (n - h - m)
+                cuts = [h]
+            else:
+                cuts = sorted(rng.sample(range(1, n), k - 1))
+            seq = gen2d.seq_for(n, rng, placeholders=False)
+            prev = 0
+            for s_, c in enumerate(cuts + [n]):
+                strands.append([rng.random() < 0.5 and f">strand_{s_}" or None, seq[prev:c], whole[prev:c]])
+                prev = c
+        else:
+            for s in range(rng.randint(1, 5)):
+                n = rng.randint(1, 30)
+                strands.append([rng.random() < 0.5 and f">strand_{s}" or None, gen2d.seq_for(n, rng, placeholders=False), gen2d.random_dotbracket(rng, n, rng.choice([1, 2, 4]))])
         yield {"family": "multistrand", "strands": strands}
 
 
@@ -303,7 +329,7 @@ def run_case(case, rec):
         if attr == "dot_bracket" and _max_component(f) > 14:
             rec.skip("optimal.pairs", "component>14-stems:CBC-too-slow")
             continue
-        if attr == "all_dot_brackets" and (case.get("noall") or _max_component(f) > 7):
+        if attr == "all_dot_brackets" and (case.get("noall") or _max_component(f) > (9 if case.get("family") == "nine-stem-group" else 7)):
             continue
         try:
             getattr(b, attr)
